@@ -62,6 +62,9 @@ PTab ==
     (  "object"    :> PCls("special", FALSE, << >>, <<hashInt>>)
     @@ "Generic"   :> PCls("special", FALSE, <<"object">>, <<SlotE("__class_getitem__")>>)
     @@ "Protocol"  :> PCls("special", FALSE, <<"Generic", "object">>, <<SlotE("__slots__")>>)
+    \* run-time classes of the function literals / class literals (never offered as types themselves)
+    @@ "function"  :> PCls("rtype", FALSE, <<"object">>, <<MethE("__call__", TObj)>>)
+    @@ "type"      :> PCls("rtype", FALSE, <<"object">>, <<MethE("__call__", TObj)>>)
     @@ "Sized"     :> PCls("abc", FALSE, <<"object">>, <<lenInt, SlotE("__slots__")>>)
     @@ "Hashable"  :> PCls("abc", FALSE, <<"object">>, <<hashInt, SlotE("__slots__")>>)
     @@ "Container" :> PCls("abc", FALSE, <<"object">>, <<SlotE("__class_getitem__"), containsM, SlotE("__slots__")>>)
@@ -80,6 +83,7 @@ PTab ==
     @@ "PC"        :> PCls("proto", FALSE, <<"Container">> \o ProtoMro, <<nameStr>>)
     @@ "PG"        :> Proto(FALSE, <<MethE("get", TVT)>>)
     @@ "PA"        :> Proto(TRUE, <<IAttrE("x", TInt, NONE)>>)
+    @@ "PAn"       :> Proto(FALSE, <<IAttrE("x", TInt, NONE)>>)
     @@ "PP"        :> Proto(FALSE, <<PropE("x", TInt, NONE)>>)
     @@ "PRec"      :> Proto(FALSE, <<MethE("nxt", Typed("PRec"))>>)
     @@ "PQ1"       :> Proto(FALSE, <<MethE("q", Typed("PQ2")), MethE("z", TInt)>>)
@@ -125,6 +129,8 @@ PTab ==
     @@ "Kxann"     :> Plain(<<IAttrE("x", TInt, I0)>>)
     @@ "Kxprop"    :> Plain(<<PropE("x", TInt, I0)>>)
     @@ "Kxprops"   :> Plain(<<PropE("x", TStr, SE)>>)
+    \* x exists per instance only (declared object): the instance "inst" holds 0, the instance "s" holds ""
+    @@ "Kxi"       :> Plain(<<IAttrE("x", TObj, I0)>>)
     @@ "KRec"      :> Plain(<<MethE("nxt", Typed("KRec"))>>)
     @@ "KRecBad"   :> Plain(<<MethE("nxt", TInt)>>)
     @@ "KRecP"     :> Plain(<<MethE("nxt", Typed("PRec"))>>)
@@ -161,6 +167,24 @@ FindIn(classes, n) ==
          IN IF hits # {} THEN [found |-> TRUE, e |-> PTab[c].own[CHOOSE i \in hits : TRUE], owner |-> c]
             ELSE FindIn(Tail(classes), n)
 
+\* function literals: objects [c |-> "function", v |-> name] with their own signatures (parameter types, return type)
+PFun == (  "F_ii"  :> [ps |-> <<TInt>>, t |-> TInt]
+        @@ "F_si"  :> [ps |-> <<TStr>>, t |-> TInt]
+        @@ "F_oi"  :> [ps |-> <<TObj>>, t |-> TInt]
+        @@ "F_ib"  :> [ps |-> <<TInt>>, t |-> TBool]
+        @@ "F_iii" :> [ps |-> <<TInt, TInt>>, t |-> TInt] )
+FunObj(n) == Obj("function", n)
+FunObjs == {FunObj(n) : n \in DOMAIN PFun}
+FunEntry(o) == PE("__call__", "method", PFun[o.v].t, PFun[o.v].ps, NONE, TRUE)
+KxiS == Obj("Kxi", "s")                       \* the second instance of Kxi
+\* what `o.n` finds on a literal object: a function's __call__ is its own signature; a class object sees the class-level
+\* entries of its MRO (not the instance-only ones); an instance sees its class's MRO, data members with ITS value
+ObjLookup(o, n) ==
+    IF o.c = "function" /\ n = "__call__" THEN [found |-> TRUE, e |-> FunEntry(o), owner |-> "function"]
+    ELSE IF o.c = "type" THEN (LET r == FindIn(FullMro(o.v), n) IN IF r.found /\ r.e.k # "iattr" THEN r ELSE NoEntry)
+    ELSE LET r == FindIn(FullMro(o.c), n)
+         IN IF r.found /\ o = KxiS THEN [r EXCEPT !.e.v = SE] ELSE r
+
 \* ---- terms of the sub-universe
 PInst(c) == Obj(c, "inst")
 ClsOf(T) == IF T.k = "known" THEN T.o.c ELSE T.c
@@ -179,6 +203,8 @@ SubstE(e, T) == [e EXCEPT !.t = SubstT(e.t, T), !.ps = [i \in 1..Len(e.ps) |-> S
 (* repair of one confirmed deviation (used to *define* the deviation class *)
 (* as "the verdict flips when exactly this mechanism is repaired") or a    *)
 (* seeded mistake used as sensitivity self-test.                           *)
+(*   firstlit     Value.can_assign checks only the first literal of each   *)
+(*                run-time type of a union on the right (seeded mistake)   *)
 (*   skipabc      _extract_protocol_members ignores bases without          *)
 (*                _is_protocol (seeded mistake)                            *)
 (*   propany      a property is read as Any(inference) on a TypedValue     *)
@@ -195,7 +221,7 @@ SubstE(e, T) == [e EXCEPT !.t = SubstT(e.t, T), !.ps = [i \in 1..Len(e.ps) |-> S
 (*   cacheassumed positive results are cached although they were computed  *)
 (*                under an outer recursion-guard assumption                *)
 (***************************************************************************)
-RealF == [skipabc |-> FALSE, propany |-> TRUE, noneany |-> TRUE, artretry |-> TRUE, rescue |-> TRUE, callany |-> TRUE,
+RealF == [firstlit |-> FALSE, skipabc |-> FALSE, propany |-> TRUE, noneany |-> TRUE, artretry |-> TRUE, rescue |-> TRUE, callany |-> TRUE,
           keyleft |-> FALSE, cacheassumed |-> TRUE]
 DevFlags == {"propany", "noneany", "artretry", "rescue", "callany"}
 Repair(f) == [RealF EXCEPT ![f] = FALSE]
@@ -215,7 +241,7 @@ ImplMemberSeq(p, F) == SelectSeq(PNameOrder, LAMBDA n : n \in ImplProtoMembers(p
 \* class of the MRO -- object / Protocol / Generic included -- that holds the name
 \* (on = the class the attribute was fetched from: a classmethod comes back bound to it)
 ImplLookup(T, n) ==
-    LET r == FindIn(FullMro(ClsOf(T)), n)
+    LET r == IF T.k = "known" THEN ObjLookup(T.o, n) ELSE FindIn(FullMro(ClsOf(T)), n)
     IN [found |-> r.found, e |-> SubstE(r.e, T), owner |-> r.owner, on |-> ClsOf(T)]
 
 ArtSeq(c) == IF c \in {"int", "bool"} THEN <<"float", "complex">> ELSE IF c = "float" THEN <<"complex">> ELSE << >>
@@ -230,14 +256,14 @@ RtIsInstance(o, p) ==
     /\ PTab[p].rt
     /\ \/ p \in RangeOf(FullMro(o.c))
        \/ \A n \in RefReqNames(p) :
-             LET a == FindIn(FullMro(o.c), n)
+             LET a == ObjLookup(o, n)
              IN a.found /\ (a.e.k = "none" => RefReqOf(p, n).e.k # "method")
 
 Res(r, c) == [r |-> r, c |-> c]
 St(c, a) == [cache |-> c, assumed |-> a]
 
 RECURSIVE PCA(_, _, _, _), PTypedCA(_, _, _, _), PTObj(_, _, _, _), PCompat(_, _, _, _, _), PCompare(_, _, _, _, _),
-          PAllOf(_, _, _, _), PAnyOf(_, _, _, _, _), PArtRetry(_, _, _, _)
+          PAllOf(_, _, _, _, _), PAnyOf(_, _, _, _, _), PArtRetry(_, _, _, _), PSigCompare(_, _, _, _, _, _), PCallableCA(_, _, _, _)
 
 \* nominal TypeObject.can_assign (type_object.py:122-140) for classes of PTab
 PNominal(sc, B) ==
@@ -249,19 +275,46 @@ PNominal(sc, B) ==
 PCA(X, Y, st, F) ==
     IF X.k = "any" THEN Res(TRUE, st.cache)
     ELSE IF X.k = "union" THEN                                             \* MultiValuedValue.can_assign (value.py:1992)
-         IF Y.k = "union" THEN PAllOf(X, Y.ms, st, F) ELSE PAnyOf(X.ms, Y, st, F, FALSE)
+         IF Y.k = "union" THEN PAllOf(X, Y.ms, st, F, {}) ELSE PAnyOf(X.ms, Y, st, F, FALSE)
     ELSE IF Y.k = "any" THEN Res(TRUE, st.cache)
-    ELSE IF Y.k = "union" THEN PAllOf(X, Y.ms, st, F)                       \* Value.can_assign (value.py:107), Never included
+    ELSE IF Y.k = "union" THEN PAllOf(X, Y.ms, st, F, {})                   \* Value.can_assign (value.py:107), Never included
+    ELSE IF X.k = "callable" THEN PCallableCA(X, Y, st, F)                  \* CallableValue.can_assign (value.py:1761)
+    ELSE IF Y.k = "callable" THEN Res(X = TObj, st.cache)                   \* a Callable type offered to a class: object only
     ELSE IF InValues(X) /\ InValues(Y) THEN Res(ImplCA(X, Y, FALSE), st.cache)
     ELSE IF IsPT(X) THEN PTypedCA(X, Y, st, F)
     ELSE IF X.k = "known" THEN Res(Y.k = "known" /\ Y.o = X.o, st.cache)    \* KnownValue.can_assign: equality only
     ELSE IF Y.k = "known" /\ ~(Y.o.c \in PClassNames) THEN Res(X.c = "object", st.cache)     \* None literal
     ELSE Res(PNominal(X.c, Y), st.cache)                                    \* TypedValue of a non-protocol class
 
-PAllOf(X, ms, st, F) ==
+\* every member of the union on the right, first failure returns.  (seen / F.firstlit: the seeded mistake "for an
+\* expected TypedValue without generic arguments check only the first literal of each run-time type")
+PAllOf(X, ms, st, F, seen) ==
     IF ms = << >> THEN Res(TRUE, st.cache)
-    ELSE LET r == PCA(X, Head(ms), st, F)
-         IN IF ~r.r THEN r ELSE PAllOf(X, Tail(ms), St(r.c, st.assumed), F)
+    ELSE LET h == Head(ms)
+             lit == F.firstlit /\ X.k \in {"typed", "callable"} /\ h.k = "known"
+         IN IF lit /\ h.o.c \in seen THEN PAllOf(X, Tail(ms), st, F, seen)
+            ELSE LET r == PCA(X, h, st, F)
+                 IN IF ~r.r THEN r ELSE PAllOf(X, Tail(ms), St(r.c, st.assumed), F, IF lit THEN seen \cup {h.o.c} ELSE seen)
+
+\* Signature.can_assign for the signatures of the sub-universe: return type first, then arity, then the parameters
+\* contravariantly (signature.py:1490)
+PSigCompare(eret, eps, aret, aps, st, F) ==
+    LET r1 == PCA(eret, aret, st, F)
+    IN IF ~r1.r THEN r1
+       ELSE IF Len(eps) # Len(aps) THEN Res(FALSE, r1.c)
+       ELSE IF eps = << >> THEN r1
+       ELSE LET r2 == PCA(aps[1], eps[1], St(r1.c, st.assumed), F)
+            IN IF ~r2.r \/ Len(eps) = 1 THEN r2 ELSE PCA(aps[2], eps[2], St(r2.c, st.assumed), F)
+
+\* CallableValue.can_assign: the signature of the other value (ctx.signature_from_value) against the expected one
+CallPs(X) == [i \in 1..Len(X.ps) |-> X.ps[i].t[1]]
+PCallableCA(X, Y, st, F) ==
+    IF Y.k = "callable" THEN PSigCompare(X.ret, CallPs(X), Y.ret, CallPs(Y), st, F)
+    ELSE LET act == ImplLookup(Y, "__call__")
+         IN IF ~act.found \/ act.e.k # "method" THEN Res(FALSE, st.cache)             \* "is not a callable type"
+            \* the signature of a literal object with a __call__ method is (...) -> Any
+            ELSE IF Y.k = "known" /\ Y.o.c # "function" /\ F.callany THEN Res(TRUE, st.cache)
+            ELSE PSigCompare(X.ret, CallPs(X), act.e.t, act.e.ps, st, F)
 
 \* every member of the union on the left is tried (no early exit), value.py:2030
 PAnyOf(ms, Y, st, F, acc) ==
@@ -308,7 +361,7 @@ PCompat(A, B, names, st, F) ==
              act == ImplLookup(B, n)
              r == IF ~act.found THEN Res(FALSE, st.cache)                   \* "has no attribute" / "is not a callable type"
                   \* the signature of a literal object with a __call__ method is (...) -> Any
-                  ELSE IF n = "__call__" /\ B.k = "known" /\ act.e.k = "method" /\ F.callany THEN Res(TRUE, st.cache)
+                  ELSE IF n = "__call__" /\ B.k = "known" /\ B.o.c # "function" /\ act.e.k = "method" /\ F.callany THEN Res(TRUE, st.cache)
                   ELSE PCompare(exp, act, B.k = "known", st, F)
          IN IF ~r.r THEN r ELSE PCompat(A, B, Tail(names), St(r.c, st.assumed), F)
 
@@ -329,11 +382,7 @@ PCompare(exp, act, known, st, F) ==
          [] e.k \in {"attr", "iattr"} -> dataExpected
          [] e.k = "method" ->
               CASE a.k = "method" ->                                        \* Signature.can_assign: return first, then parameters
-                     LET r1 == PCA(e.t, a.t, st, F)
-                     IN IF ~r1.r THEN r1
-                        ELSE IF Len(e.ps) # Len(a.ps) THEN Res(FALSE, r1.c)
-                        ELSE IF e.ps = << >> THEN r1
-                        ELSE PCA(a.ps[1], e.ps[1], St(r1.c, st.assumed), F)
+                     PSigCompare(e.t, e.ps, a.t, a.ps, st, F)
                 [] a.k = "none" -> IF known THEN no ELSE IF F.noneany THEN ok ELSE no
                 [] a.k = "prop" -> IF known THEN no ELSE IF F.propany THEN ok ELSE no
                 [] OTHER -> no
